@@ -272,6 +272,10 @@ func (e *EndpointIndex) deleteServiceInner(shard ShardKey, serviceName, namespac
 	// Clear the cache here to avoid race in cache writes.
 	e.clearCacheForService(serviceName, namespace)
 	if !preserveKeys {
+		// The shard is gone for good (service deleted in this registry, or registry removed): the service
+		// accounts of its endpoints must not outlive it. (With preserveKeys the accounts are deliberately
+		// kept, like the keys, so that flapping endpoints do not cause full pushes.)
+		updateShardServiceAccount(epShards, serviceName)
 		if len(epShards.Shards) == 0 {
 			delete(e.shardsBySvc[serviceName], namespace)
 			epShards.removed = true
